@@ -202,6 +202,29 @@ fn run_leaf(ops: &[Op], prefix: &[Op], with_replica: bool, rep: &Report, stats: 
                 }
             }
         }
+        // duplicate delivery: the same accepted proof arrives a second time; if it is accepted
+        // again it must announce the same events again, if it is refused or a no-op, nothing
+        if viol.is_none() && matches!(op, Op::RSync(_)) && matches!(out, Out::Ok(OpRes::Synced { proof: true, applied: Some(Ok(true)) })) {
+            if let (Some(p), Some(rp)) = (sys.last_proof.clone(), sys.rp.as_mut()) {
+                if rp.core.is_some() {
+                    let o2 = apply_proof(rp.c(), &p);
+                    stats.add("duplicate_deliveries", 1);
+                    let exp2 = match &o2 {
+                        Out::Ok(true) => exp.clone(),
+                        _ => vec![],
+                    };
+                    for (_, rx) in subs.w.iter_mut() {
+                        let _ = drain(rx);
+                    }
+                    let seen2: Vec<Vec<Ev>> = subs.r.iter_mut().map(|(_, rx)| drain(rx)).collect();
+                    if !matches!(o2, Out::Panic(_)) {
+                        if let Some(bad) = seen2.iter().find(|g| **g != exp2) {
+                            viol = Some(("duplicate-delivery".into(), format!("the same proof delivered a second time returned {}: subscribers saw {:?}, expected {:?}", o2.brief(), bad, exp2)));
+                        }
+                    }
+                }
+            }
+        }
         if let Some((clause, detail)) = viol {
             let outk = match &out {
                 Out::Ok(_) => "ok",
@@ -424,7 +447,7 @@ pub fn run(tier: &str) -> i32 {
     let coverage = json!({
         "evaluations": stats.get("calls") + stats.get("faulted_calls"),
         "distinct_nontrivial": outcomes.len(),
-        "rule": "every op sequence up to the depth; a subscriber is attached before every call (all attach positions), every receiver drained after every call (< 32 undrained); per call each subscriber attached before it must have received exactly: non-empty append -> [DataUpgrade, Have{old length, batch size, drop=false}]; accepted proof -> DataUpgrade iff it carried an upgrade then Have{index,1,false} iff it carried a block; get of an index not held -> one Get{index}; held get, empty batch, refused/failed calls -> nothing; clear -> nothing or only drop=true Haves inside the range; all subscribers identical. distinct_nontrivial = distinct (op kind, observed event list) outcomes",
+        "rule": "every op sequence up to the depth; a subscriber is attached before every call (all attach positions), every receiver drained after every call (< 32 undrained); per call each subscriber attached before it must have received exactly: non-empty append -> [DataUpgrade, Have{old length, batch size, drop=false}]; accepted proof -> DataUpgrade iff it carried an upgrade then Have{index,1,false} iff it carried a block; get of an index not held -> one Get{index}; held get, empty batch, refused/failed calls -> nothing; clear -> nothing or only drop=true Haves inside the range; all subscribers identical; every accepted honest proof is delivered a second time: accepted again -> the same events again, otherwise nothing. distinct_nontrivial = distinct (op kind, observed event list) outcomes",
         "executions": stats.get("executions"),
         "families": fams,
         "samples": ["append[1]; batch[2,0]; get(5); clear(0,1); get(0)", "writer 3 blocks | rsync{b0u3}; rbad#1{b1}; r.get(1); rsync{b1}"],
